@@ -146,6 +146,35 @@ impl Adversary {
     /// `a` = certificate spec (k, by, names, valid, eku, wf) plus signkey=<k|e> (key used for the
     /// handshake signature; default: the certificate's own key) and nocert=1 (present none as client).
     pub fn new(fab: &Arc<Fabric>, a: &HashMap<&str, &str>) -> Adversary {
+        // k=g<relation>:<V>: the adversary ground its own key until its public key stands in a weak relation to the public
+        // key of victim V (same xor / sum of all bytes, same first / last byte): about 256 tries
+        let ground: Option<String> = a.get("k").and_then(|k| k.strip_prefix('g')).map(|spec| {
+            let (rel, v) = spec.split_once(':').unwrap();
+            let pk = |seed: u64| -> Vec<u8> {
+                use ring::signature::KeyPair as _;
+                ring::signature::Ed25519KeyPair::from_seed_unchecked(&crate::simnet::key_from_seed(seed)).unwrap().public_key().as_ref().to_vec()
+            };
+            let f = |b: &[u8]| -> u32 {
+                match rel {
+                    "xor" => b.iter().fold(0u8, |x, y| x ^ y) as u32,
+                    "sum" => b.iter().fold(0u8, |x, y| x.wrapping_add(*y)) as u32,
+                    "first" => b[0] as u32,
+                    "last" => b[31] as u32,
+                    _ => ((b[0] as u32) << 8) | b[1] as u32,
+                }
+            };
+            let want = f(&pk(v.parse().unwrap()));
+            let mut s: u64 = 5_000_000;
+            while f(&pk(s)) != want {
+                s += 1;
+            }
+            s.to_string()
+        });
+        let mut a2: HashMap<&str, &str> = a.clone();
+        if let Some(g) = ground.as_deref() {
+            a2.insert("k", g);
+        }
+        let a = &a2;
         let der = certs::build_cert(a);
         let k = *a.get("k").unwrap_or(&"1");
         let key = signing_key(a.get("signkey").copied().unwrap_or(k));
